@@ -12,6 +12,8 @@ from checks import _flow
 from checks._flow import FlowModel, SQRT2
 
 ID = "C06"
+# computational entry points whose results are watched by the engine's retained-result oracle (mc/explore.py)
+RETAIN = [('hydrodiy.gis.grid', 'Catchment.upstream'), ('hydrodiy.gis.grid', 'Catchment.downstream'), ('hydrodiy.gis.grid', 'delineate_river')]
 SUPERVISED = True
 CASE_TIMEOUT = 30.0
 RULE = ("every flow-direction grid of the listed shapes over the code alphabet "
@@ -68,9 +70,12 @@ def units(tier, seed):
         us.append({"kind": "dev", "shape": [3, 3], "base": "converge", "maxdev": 2, "seed": seed, "maxinlets": 1, "part": [3, 4]})
         us += mixed_units(tier, seed)
         us += [{"kind": "strip", "n": n, "seed": seed, "maxinlets": 1} for n in STRIP_SIZES_QUICK]
+        # dense range: every strip length 5..48
+        us += [{"kind": "strip", "n": n, "seed": seed, "maxinlets": 1} for n in range(5, 49) if n not in STRIP_SIZES_QUICK]
     else:
         us += mixed_units(tier, seed)
         us += [{"kind": "strip", "n": n, "seed": seed, "maxinlets": 1} for n in STRIP_SIZES_THOROUGH]
+        us += [{"kind": "strip", "n": n, "seed": seed, "maxinlets": 1} for n in range(5, 301) if n not in STRIP_SIZES_THOROUGH]
         for u in _flow.shape_units(small + [((1, 5), "full"), ((5, 1), "full")], seed, target=400):
             u["maxinlets"] = 2
             us.append(u)
